@@ -326,6 +326,26 @@ def apply_model(sym, n, f, vals, mut_idx, st):
             return V(("checked", lin_norm([(vals[0], 1), (vals[1], sign)]), "u-", vals[0], vals[1]))
         return V(("checked", lin_norm([(vals[0], 1), (vals[1], sign)])))
 
+    # ---- the first piece of `x.split_inclusive(p)` (a slice): up to and including the first element matching p, else all of x; an
+    # empty x has no piece at all
+    if p == "std::iter::Iterator::next" and len(vals) == 1 and vals[0][0] == "call" and vals[0][1] == "core::slice::split_inclusive" and len(vals[0][2]) == 2 \
+            and vals[0][2][1][0] in ("closure", "fnref"):
+        x_, pr_ = vals[0][2]
+        pos_ = ("call", "std::iter::Iterator::position", (("call", "core::slice::iter", (x_,)), pr_))
+        out = []
+        for s1, is_some in fork_is(sym, st, pos_, "Some"):
+            if is_some:
+                end_ = lin_norm([(mk_payload(pos_, "Some", "0"), 1)], 1)
+                out.append((s1, (VAL, some(("prefix", x_, end_)))))
+            else:
+                for pol in (True, False):
+                    s2 = s1.with_cond(("empty", x_), pol)
+                    if s2 is not None:
+                        out.append((s2, (VAL, NONE if pol else some(x_))))
+        return out
+    if last == "len" and len(vals) == 1 and vals[0][0] == "prefix":
+        return V(vals[0][2])       # x[..k].len() is k
+
     # ---- the last piece of a split, taken from either end ------------------------------------------------------------------------
     if p == "std::iter::Iterator::next" and len(vals) == 1 and vals[0][0] == "call" and vals[0][1] == "core::str::rsplit" and len(vals[0][2]) == 2:
         return V(("call", "std::iter::Iterator::last", (("call", "core::str::split", vals[0][2]),)))
